@@ -679,9 +679,10 @@ Lemma failures_nonzero_proof : forall decode tmp st,
      f_output_utf8 f = false \/ f_ninputs f = 0 \/
      (forall v, parse_capacity (f_checked f) (f_qcap f) <> Ok v) \/
      (exists l, pr = PipeFail l) ->
-     fst (run_main decode tmp (CmdCreate f output pr) st) = NonZero).
+     fst (run_main decode tmp (CmdCreate f output pr) st) = NonZero) /\
+  (forall arc, fst (run_main decode tmp (CmdInfo arc) st) = NonZero).
 Proof.
-  intros decode tmp st. split; [|split; [|split]].
+  intros decode tmp st. split; [|split; [|split; [|split]]].
   - intros. cbn [run_main]. apply getset_failures. assumption.
   - intros arc output H. cbn [run_main]. unfold listset_command.
     destruct H as [H|(o & -> & H)]; [rewrite H; reflexivity|].
@@ -695,6 +696,7 @@ Proof.
       destruct (listctg_lines a samples); [|reflexivity].
       rewrite emit_lines_uncreatable by assumption. reflexivity.
   - intros. cbn [run_main]. apply create_failures. assumption.
+  - reflexivity.
 Qed.
 
 (* ------------------------------------------------------------------ 80-column wrapping *)
